@@ -47,6 +47,47 @@ func oracle(r *hx.Run, id string, c dialx.Case, o dialx.Obs) {
 	}
 }
 
+// periodsOf: the number of timeout periods a public call can spend (theorems C17_time_budget_*: arming points passed, plus
+// the dial context for the connect): independent of the number of recipients, linear in the number of messages
+func periodsOf(call string, nmsgs int) int {
+	switch call {
+	case "DialWithContext":
+		return 2
+	case "DialAndSendWithContext":
+		return nmsgs + 5
+	case "Send":
+		return nmsgs + 1
+	}
+	return 1 // Reset, Close
+}
+
+// manyRecipients: the cases in which the time budget is checked tightly
+func manyRecipients(c dialx.Case) bool {
+	for _, n := range c.Msgs {
+		if n >= 8 {
+			return true
+		}
+	}
+	return false
+}
+
+// budgetOracle: every call of a many-recipient stall case stays within (periods + 1.5) x timeout + 1 s -- a call that
+// waits one timeout per recipient does not
+func budgetOracle(r *hx.Run, id string, c dialx.Case, o dialx.Obs) {
+	if !manyRecipients(c) || o.Hung {
+		return
+	}
+	to := dialx.TimeoutFor(c)
+	for _, ct := range o.Calls {
+		k := periodsOf(ct.Name, len(c.Msgs))
+		limit := time.Duration(float64(to)*(float64(k)+1.5)) + time.Second
+		if ct.Elapsed > limit {
+			r.Fail(id, "exceeds-time-budget-"+ct.Name, fmt.Sprintf("%s took %v with WithTimeout(%v) and %v recipients: more than the %d timeout periods the call can spend (limit %v); SetDeadline calls %d, deadlines waited out %d; server log %s",
+				ct.Name, ct.Elapsed.Round(time.Millisecond), to, c.Msgs, k, limit, o.Arms, o.Spent, o.Srv))
+		}
+	}
+}
+
 func Run(r *hx.Run, replay []hx.Case) {
 	pki, err := dialx.Setup(filepath.Join(r.Dir, "pki"))
 	if err != nil {
@@ -66,7 +107,10 @@ func Run(r *hx.Run, replay []hx.Case) {
 	nontriv := func(c dialx.Case) bool {
 		return c.HS == "stall" || c.Mute >= 0 || strings.Contains(strings.Join(c.Script, ","), "stall")
 	}
-	dialx.RunCases(r, pki, cases, ids, 24, nontriv, oracle)
+	dialx.RunCases(r, pki, cases, ids, 24, nontriv, func(r *hx.Run, id string, c dialx.Case, o dialx.Obs) {
+		oracle(r, id, c, o)
+		budgetOracle(r, id, c, o)
+	})
 	r.Notes["blocked_cases"] = dialx.Blocked()
 	if dialx.Blocked() >= dialx.MaxBlocked {
 		r.Notes["stopped_early"] = "more than MaxBlocked cases did not return: the remaining cases were skipped"
@@ -182,6 +226,32 @@ func generate(r *hx.Run, pki *dialx.PKI) []dialx.Case {
 						out = append(out, c)
 					}
 				}
+			}
+		}
+	}
+	// messages with many recipients, the server silent from the first / a middle RCPT on: the time a call takes must not
+	// grow with the number of recipients (budgetOracle; the model's arms / spent counters are compared as well)
+	for _, pol := range []string{"N", "M"} {
+		for _, k := range []string{"das", "sess"} {
+			base := dialx.Case{Kind: k, Policy: pol, Auth: "NOAUTH", Custom: "-", Host: dialx.OtherMem, Mute: -1, Caps: capsPre, CapsTLS: capsTLS, HS: "ok", Msgs: []int{12}}
+			_, _, log, err := dialx.Baseline(pki, base)
+			if err != nil {
+				r.Fail("baseline", "harness-error", err.Error())
+				continue
+			}
+			first := -1
+			for i, e := range strings.Split(log, ",") {
+				if strings.HasPrefix(e, "RCPT") && first < 0 {
+					first = i
+				}
+			}
+			if first < 0 {
+				continue
+			}
+			for _, p := range []int{first, first + 6} {
+				c := base
+				c.Script = append(dialx.OKs(p), "stall")
+				out = append(out, c)
 			}
 		}
 	}
